@@ -192,6 +192,7 @@ def run(tier):
     dominated_success(res, PROP, "C03.R4", eng, tr, drv, nonneg_possible, "plc", {"nonneg", "zero", "pos", None},
                       "checkPathLenConstraint(...) >= 0")
     rule_R5(res, prog)
+    rule_R6(res, prog)
     return res.finish()
 
 
@@ -283,3 +284,205 @@ def rule_R5(res, prog):
                                  file=fn.relfile, line=t["ln"])
                 res.instance("C03.R5", "%s:%s %s -> error exit" % (fn.name, t["ln"], pp(c)[:60]), ok, finding=f_)
     res.floor("C03.R5", 2)
+
+
+def rule_R6(res, prog):
+    """Validity period.  (a) validateDateRange: every success return passed the notBefore-vs-now test and either the
+    now-vs-notAfter test or the `notAfter is the RFC 5280 no-expiry value` outcome; the out-of-range outcome of each test
+    sets PS_CERT_AUTH_FAIL_DATE_FLAG (or is an error exit).  (b) psX509AuthenticateCert: inside the per-certificate loop
+    the test of that flag dominates the store authStatus = PS_CERT_AUTH_PASS and its flagged outcome writes another verdict.
+    The calendar arithmetic (psBrokenDownTimeCmp, the import of the time strings) is not decided."""
+    from sa import cfgutil as cu
+    from sa.pp import pp
+    rid = "C03.R6"
+    res.rule(rid, "validity period: both date tests are on every success path of validateDateRange with the out-of-range "
+                  "outcome flagged; the flag is tested before every authStatus = PASS")
+    DATE = prog.const("PS_CERT_AUTH_FAIL_DATE_FLAG")
+    PASS = prog.const("PS_CERT_AUTH_PASS")
+    fn = prog.fn("validateDateRange")
+
+    def addr_var(e):
+        e = strip(e)
+        while e is not None and e.get("k") == "cast":
+            e = strip(e["e"])
+        if e is not None and e.get("k") == "un" and e["op"] == "&":
+            v = strip(e["e"])
+            if v is not None and v.get("k") == "var" and "id" in v:
+                return v["id"]
+        return None
+    cls = {}
+    copies = []
+    for b, ln, c in fn.calls():
+        a = c.get("a", [])
+        if c.get("fn") == "psGetBrokenDownGMTime" and a and addr_var(a[0]) is not None:
+            cls[addr_var(a[0])] = "NOW"
+        if c.get("fn") == "psBrokenDownTimeImport" and len(a) >= 2 and addr_var(a[0]) is not None:
+            flds = set(m.get("f") for m in walk(a[1]) if m.get("k") == "mem")
+            if "notBefore" in flds:
+                cls[addr_var(a[0])] = "BEFORE"
+            elif "notAfter" in flds:
+                cls[addr_var(a[0])] = "AFTER"
+        if c.get("fn") in ("memcpy", "__builtin_memcpy", "__builtin___memcpy_chk") and len(a) >= 2 and \
+                addr_var(a[0]) is not None and addr_var(a[1]) is not None:
+            copies.append((addr_var(a[0]), addr_var(a[1])))
+    for _ in range(3):
+        for d, s_ in copies:
+            if s_ in cls and d not in cls:
+                cls[d] = cls[s_]
+    if set(cls.values()) != {"NOW", "BEFORE", "AFTER"}:
+        raise AnalysisBroken("C03.R6: validateDateRange: time variables not classified (%s)" % sorted(set(cls.values())))
+
+    def cmp_kind(call):
+        a = call.get("a", [])
+        if call.get("fn") != "psBrokenDownTimeCmp" or len(a) < 2:
+            return None
+        return (cls.get(addr_var(a[0])), cls.get(addr_var(a[1])))
+    # tests: blocks whose condition is `psBrokenDownTimeCmp(x, y) OP 0`
+    tests = {"BEFORE": [], "AFTER": []}
+    for b in fn.blocks:
+        t = b.get("term")
+        if t is None or "c" not in t or len(b["succ"]) != 2:
+            continue
+        c = strip(t["c"])
+        if c is None or c.get("k") != "bin" or c["op"] not in (">", "<", ">=", "<="):
+            continue
+        l_, r_ = strip(c["l"]), strip(c["r"])
+        if l_ is None or l_.get("k") != "call" or r_ is None or r_.get("k") != "int" or r_["v"] != 0:
+            continue
+        kinds = cmp_kind(l_)
+        if kinds is None or "NOW" not in kinds or None in kinds:
+            continue
+        other = kinds[0] if kinds[1] == "NOW" else kinds[1]
+        if other not in tests:
+            continue
+        # out-of-range: BEFORE later than NOW / NOW later than AFTER;  Cmp(x, y) > 0 <=> x later than y
+        first_later = c["op"] in (">", ">=")
+        want_first = "BEFORE" if other == "BEFORE" else "NOW"
+        bad_edge = 0 if ((kinds[0] == want_first) == first_later) else 1
+        strict = c["op"] in (">", "<")
+        tests[other].append((b, l_, bad_edge, strict, t["ln"]))
+    for which in ("BEFORE", "AFTER"):
+        what = "notBefore vs now" if which == "BEFORE" else "now vs notAfter"
+        if not tests[which]:
+            f_ = Finding(PROP, rid, fn.name, "no %s test" % what,
+                         "validateDateRange has no branch on psBrokenDownTimeCmp between the certificate's %s and the current time" % (
+                             "notBefore" if which == "BEFORE" else "notAfter"), file=fn.relfile, line=fn.line)
+            res.instance(rid, "validateDateRange: %s test exists" % what, False, finding=f_)
+            continue
+        calls = [id(t_[1]) for t_ in tests[which]]
+
+        def is_pass(x, calls=calls):
+            return any(id(n) in calls for n in walk(x))
+
+        def indefinite_edge(b, k, which=which):
+            if which != "AFTER":
+                return False
+            t = b.get("term")
+            if t is None or "c" not in t or len(b["succ"]) != 2:
+                return False
+            for (txt, tr, nd) in cu._cond_atoms(t["c"], k == 0):
+                nd = strip(nd)
+                if tr and nd is not None and nd.get("k") == "call" and nd.get("fn") == "isIndefiniteDateRFC5280" and \
+                        cls.get(addr_var(nd["a"][0])) == "AFTER":
+                    return True
+            return False
+        esc = cu.escapes(fn, (fn.entry, None), is_pass, exempt_edge=indefinite_edge, is_target=cu.success_ret)
+        f_ = None
+        if esc is not None:
+            f_ = Finding(PROP, rid, fn.name, "success without the %s test" % what,
+                         "%s:%s validateDateRange(): a path to the success return at line %s does not pass the %s test%s "
+                         "(via lines %s): a certificate outside its validity period is not flagged" % (
+                             fn.relfile, esc[-1][1], esc[-1][1], what,
+                             " and not the no-expiry outcome of isIndefiniteDateRFC5280(notAfter)" if which == "AFTER" else "",
+                             [p_[1] for p_ in esc[-6:-1]]), file=fn.relfile, line=esc[-1][1])
+        res.instance(rid, "validateDateRange: every success return passes the %s test" % what, esc is None, finding=f_)
+        for (b, call, bad_edge, strict, ln) in tests[which]:
+            sb = fn.bmap.get(b["succ"][bad_edge].get("b"))
+            flagged = False
+            if sb is not None:
+                for i, l2, x in cu.block_exprs(sb):
+                    for n in walk(x):
+                        if n.get("k") == "bin" and n["op"] in ("|=", "=") and (strip(n["l"]) or {}).get("f") == "authFailFlags" and \
+                                any(m.get("k") == "int" and m["v"] & DATE for m in walk(n["r"])):
+                            flagged = True
+                    if x.get("k") == "ret" and not cu.success_ret(x):
+                        flagged = True
+            f_ = None
+            if not flagged:
+                f_ = Finding(PROP, rid, fn.name, "out-of-range outcome not flagged",
+                             "%s:%s validateDateRange(): the outcome of `%s` that means `%s` does not set PS_CERT_AUTH_FAIL_DATE_FLAG "
+                             "(the comparison direction or the flagged branch changed)" % (
+                                 fn.relfile, ln, pp(b["term"]["c"])[:60], "not yet valid" if which == "BEFORE" else "expired"),
+                             file=fn.relfile, line=ln)
+            res.instance(rid, "validateDateRange:%s out-of-range outcome of the %s test sets the date flag" % (ln, what), flagged, finding=f_)
+    # (b) consumption in psX509AuthenticateCert
+    fa = prog.fn("psX509AuthenticateCert")
+    dom = cu.dominators(fa)
+    tests_b = []
+    for b in fa.blocks:
+        t = b.get("term")
+        if t is None or "c" not in t:
+            continue
+        if any(n.get("k") == "bin" and n["op"] == "&" and (strip(n["l"]) or {}).get("f") == "authFailFlags" and
+               (strip(n["r"]) or {}).get("k") == "int" and strip(n["r"])["v"] == DATE for n in walk(t["c"])):
+            tests_b.append(b)
+    stores = []
+    for b in fa.blocks:
+        for i, ln, x in cu.block_exprs(b):
+            for n in walk(x):
+                if n.get("k") == "bin" and n["op"] == "=" and (strip(n["l"]) or {}).get("f") == "authStatus" and \
+                        (strip(n["r"]) or {}).get("k") == "int" and strip(n["r"])["v"] == PASS:
+                    stores.append((b, ln))
+    if not stores:
+        raise AnalysisBroken("C03.R6: psX509AuthenticateCert no longer stores PS_CERT_AUTH_PASS")
+    # loop headers: targets of back edges
+    heads = set()
+    for b in fa.blocks:
+        for sc in b["succ"]:
+            s_ = sc.get("b")
+            if s_ is not None and s_ in dom.get(b["id"], set()):
+                heads.add(s_)
+    test_ids = set(tb["id"] for tb in tests_b)
+
+    def passes_flag_test(x):
+        return any(n.get("k") == "bin" and n["op"] == "&" and (strip(n["l"]) or {}).get("f") == "authFailFlags" and
+                   (strip(n["r"]) or {}).get("k") == "int" and strip(n["r"])["v"] == DATE for n in walk(x))
+    for (b, ln) in stores:
+        inner = [h for h in heads if h in dom[b["id"]]]
+        ok = True
+        why = None
+        for start in [fa.entry] + inner:
+            esc = cu.escapes(fa, (start, None), passes_flag_test,
+                             target_expr=lambda x: any(n.get("k") == "bin" and n["op"] == "=" and (strip(n["l"]) or {}).get("f") == "authStatus"
+                                                       and (strip(n["r"]) or {}).get("k") == "int" and strip(n["r"])["v"] == PASS for n in walk(x)))
+            if esc is not None:
+                ok = False
+                why = "a path from %s reaches it without a test of authFailFlags & PS_CERT_AUTH_FAIL_DATE_FLAG (via lines %s)" % (
+                    "the entry" if start == fa.entry else "the loop head", [p_[1] for p_ in esc[-6:]])
+                break
+        if ok:
+            for tb in tests_b:
+                # flagged outcome writes another verdict or leaves
+                sb = fa.bmap.get(tb["succ"][0].get("b"))
+                wr = False
+                if sb is not None:
+                    for i, l2, x in cu.block_exprs(sb):
+                        for n in walk(x):
+                            if n.get("k") == "bin" and n["op"] == "=" and (strip(n["l"]) or {}).get("f") == "authStatus" and \
+                                    not ((strip(n["r"]) or {}).get("k") == "int" and strip(n["r"])["v"] in (PASS, 0)):
+                                wr = True
+                        if x.get("k") == "ret" and not cu.success_ret(x):
+                            wr = True
+                if not wr:
+                    ok = False
+                    why = "the flagged outcome of the test at line %s does not write a failing verdict" % tb["term"]["ln"]
+            if not tests_b:
+                ok, why = False, "no test of authFailFlags & PS_CERT_AUTH_FAIL_DATE_FLAG in the function"
+        f_ = None
+        if not ok:
+            f_ = Finding(PROP, rid, fa.name, "PASS without the date flag consulted",
+                         "%s:%s psX509AuthenticateCert(): authStatus = PS_CERT_AUTH_PASS: %s (inside the per-certificate loop): a "
+                         "certificate flagged as outside its validity period at parse time is authenticated" % (fa.relfile, ln, why),
+                         file=fa.relfile, line=ln)
+        res.instance(rid, "psX509AuthenticateCert:%s authStatus = PASS dominated by the date-flag test" % ln, ok, finding=f_)
+    res.floor(rid, 5)
